@@ -38,7 +38,7 @@ Two families of cases:
       StopIteration(value) or a subclass of StopIteration.  Pull bound, pull count of the model,
       window and displayed elements are those of the same case with ordinary elements; the element
       shown at index k must be the very object produced k-th.
-  Two more families (oracle: plain Python reference; the per-loop pull counts are also compared
+  Three more families (oracle: plain Python reference; the per-loop pull counts are also compared
   with the model):
     - access histories on the lazy subscription wrapper itself (`sequence_ensure_subscription` of
       every lazily produced kind, `SequenceFromIter`): random `seq[i]` / `len(seq)` sequences over
@@ -48,7 +48,13 @@ Two families of cases:
     - several loops in one rendering: two batched loops one after the other over two lazy
       sequences, a batched loop nested in a batched loop over a fresh lazy sequence per outer
       element, and a batched loop nested in a batched loop over the SAME lazy sequence (pulled <=
-      the larger of the two bounds): every sequence obeys its own window's bound.
+      the larger of the two bounds): every sequence obeys its own window's bound;
+    - as it is or wrapped (`run_ensure`, deterministic, both tiers): the real `sequence_ensure_subscription` on
+      an object of every kind of the model's `Batch.SeqKind` and of further kinds of the same classes
+      (`ENSURE_TABLE`, written from the documentation and the model's table, not from the library): a list-like
+      object comes back as the SAME object, every other one as a wrapper that has taken nothing from the
+      object before the first access, gives its elements in order under seq[0], seq[1], ... and raises
+      IndexError past the end.  The case is the object kind.
   Requests the property excepts (reverse, true reverse_expr, sort, sort_expr, sequence-length,
   next-batches, statistics) are generated too, on bounded iterators only, and held to the part of
   the property that still applies: each element pulled at most once, in order, and displayed as a
@@ -915,6 +921,235 @@ def run_wrapper(case):
 
 
 # ----------------------------------------------------------------------------
+# which objects are subscripted as they are, which are wrapped (sequence_ensure_subscription)
+
+# The expectation, written down from the documentation and the table of the model (Batch.SeqKind.listLike), not
+# taken from the library: True = "supports sequence subscription itself (and then is returned unwrapped)": the
+# SAME object comes back; False = it is iterated through a lazy wrapper.  The first ten rows are the kinds of
+# `Batch.SeqKind`; the rest are further objects of the same kinds a template is handed in practice.  A mapping
+# ("check that obj is unlikely a mapping": it has `get` or `keys`) is never subscripted as a sequence.
+ENSURE_TABLE = (
+    ('list', True), ('tuple', True), ('str', True), ('dict', False), ('set', False),
+    ('iterator', False), ('generator', False), ('getitemLen', True), ('getitemOnly', False), ('iterOnly', False),
+    # list / tuple / str
+    ('list_subclass', True), ('tuple_subclass', True), ('str_subclass', True), ('namedtuple', True),
+    ('range', True), ('deque', True), ('bytes', True), ('bytearray', True),
+    # getitemLen: with the other sequence methods as well (`index`, `count`, `__iter__`, `__contains__`)
+    ('sequence_abc', True),
+    # dict: subclasses, mappings that are not dicts, an object with `keys` only / `get` only
+    ('dict_subclass', False), ('ordereddict', False), ('mapping_abc', False), ('mapping_keys_only', False),
+    ('mapping_get_only', False),
+    # set / iterOnly: no subscription at all
+    ('frozenset', False), ('dict_keys', False), ('dict_values', False), ('dict_items', False),
+    # iterator
+    ('map', False), ('list_iterator', False), ('reversed', False),
+)
+ENSURE_SIZES = (0, 1, 3, 6)
+
+
+class Tally:
+    """how many elements were taken from a producer"""
+
+    def __init__(self):
+        self.n = 0
+
+
+def ensure_object(kind, n):
+    """(object of the kind, the n elements it holds in order, tally of the elements produced so far or None,
+    elements compared by identity?)"""
+    import collections
+    import collections.abc
+    objs = [Obj(i) for i in range(1, n + 1)]
+    t = Tally()
+
+    def counting():
+        for x in objs:
+            t.n += 1
+            yield x
+
+    class CountingIter:
+        def __init__(self):
+            self.k = 0
+
+        def __iter__(self):
+            return self
+
+        def __next__(self):
+            if self.k >= len(objs):
+                raise StopIteration
+            self.k += 1
+            t.n += 1
+            return objs[self.k - 1]
+
+    if kind == 'list':
+        return list(objs), objs, None, True
+    if kind == 'tuple':
+        return tuple(objs), objs, None, True
+    if kind == 'str':
+        return 'abcdefgh'[:n], list('abcdefgh'[:n]), None, False
+    if kind == 'dict':
+        return dict((o, o.v) for o in objs), objs, None, True
+    if kind == 'set':
+        s = set(range(10, 10 + n))
+        return s, list(s), None, False
+    if kind == 'iterator':
+        return CountingIter(), objs, t, True
+    if kind == 'generator':
+        return counting(), objs, t, True
+    if kind == 'getitemLen':
+        class ResultSet:
+            def __getitem__(self, i):
+                return objs[i]
+
+            def __len__(self):
+                return len(objs)
+        return ResultSet(), objs, None, True
+    if kind == 'getitemOnly':
+        class GetItemOnly:
+            def __getitem__(self, i):
+                x = objs[i]
+                t.n += 1
+                return x
+        return GetItemOnly(), objs, t, True
+    if kind == 'iterOnly':
+        class IterOnly:
+            def __iter__(self):
+                return counting()
+        return IterOnly(), objs, t, True
+    if kind == 'list_subclass':
+        class L(list):
+            pass
+        return L(objs), objs, None, True
+    if kind == 'tuple_subclass':
+        class T(tuple):
+            pass
+        return T(objs), objs, None, True
+    if kind == 'str_subclass':
+        class S(str):
+            pass
+        return S('abcdefgh'[:n]), list('abcdefgh'[:n]), None, False
+    if kind == 'namedtuple':
+        return collections.namedtuple('Row', ['f%d' % i for i in range(n)])(*objs), objs, None, True
+    if kind == 'range':
+        return range(5, 5 + n), list(range(5, 5 + n)), None, False
+    if kind == 'deque':
+        return collections.deque(objs), objs, None, True
+    if kind == 'bytes':
+        return b'abcdefgh'[:n], list(b'abcdefgh'[:n]), None, False
+    if kind == 'bytearray':
+        return bytearray(b'abcdefgh'[:n]), list(b'abcdefgh'[:n]), None, False
+    if kind == 'sequence_abc':
+        class Seq(collections.abc.Sequence):
+            def __getitem__(self, i):
+                return objs[i]
+
+            def __len__(self):
+                return len(objs)
+        return Seq(), objs, None, True
+    if kind == 'dict_subclass':
+        class D(dict):
+            pass
+        return D((o, o.v) for o in objs), objs, None, True
+    if kind == 'ordereddict':
+        return collections.OrderedDict((o, o.v) for o in objs), objs, None, True
+    if kind == 'mapping_abc':
+        class M(collections.abc.Mapping):
+            def __getitem__(self, k):
+                if k in objs:
+                    return k.v
+                raise KeyError(k)
+
+            def __len__(self):
+                return len(objs)
+
+            def __iter__(self):
+                return counting()
+        return M(), objs, t, True
+    if kind in ('mapping_keys_only', 'mapping_get_only'):
+        class Base:
+            def __getitem__(self, k):
+                if k in objs:
+                    return k.v
+                raise KeyError(k)
+
+            def __len__(self):
+                return len(objs)
+
+            def __iter__(self):
+                return counting()
+        if kind == 'mapping_keys_only':
+            class K(Base):
+                def keys(self):
+                    return list(objs)
+            return K(), objs, t, True
+
+        class G(Base):
+            def get(self, k, default=None):
+                return k.v if k in objs else default
+        return G(), objs, t, True
+    if kind == 'frozenset':
+        s = frozenset(range(10, 10 + n))
+        return s, list(s), None, False
+    if kind == 'dict_keys':
+        return dict((o, o.v) for o in objs).keys(), objs, None, True
+    if kind == 'dict_values':
+        return dict((o.v, o) for o in objs).values(), objs, None, True
+    if kind == 'dict_items':
+        return dict((o.v, o) for o in objs).items(), [(o.v, o) for o in objs], None, False
+    if kind == 'map':
+        return map(lambda x: x, counting()), objs, t, True
+    if kind == 'list_iterator':
+        return iter(list(objs)), objs, None, True
+    if kind == 'reversed':
+        return reversed(list(reversed(objs))), objs, None, True
+    raise ValueError(kind)
+
+
+def run_ensure(case):
+    """failures of one object handed to the real `sequence_ensure_subscription`.  A list-like object comes back as
+    the same object; every other one comes back as a wrapper that has taken nothing from the object yet, gives the
+    object's elements in order under seq[0], seq[1], ... (taking one more element each time, where that can be
+    counted) and raises IndexError past the end."""
+    from DocumentTemplate.DT_Util import sequence_ensure_subscription
+    kind, n = case['kind'], case['n']
+    as_is = dict(ENSURE_TABLE)[kind]
+    obj, want, tally, ident = ensure_object(kind, n)
+    who = 'sequence_ensure_subscription(%s of %d elements)' % (kind, n)
+    try:
+        seq = sequence_ensure_subscription(obj)
+    except Exception as e:  # noqa
+        return ['%s raised %s: %s' % (who, type(e).__name__, str(e)[:60])]
+    if as_is:
+        if seq is not obj:
+            return ['%s: a list-like object is used as it is, but a %s came back instead of the object'
+                    % (who, type(seq).__name__)]
+        return []
+    if seq is obj:
+        return ['%s: the object does not support sequence subscription (or is a mapping) and has to be wrapped, '
+                'but came back as it is' % who]
+    if tally is not None and tally.n:
+        return ['%s: %d elements taken from the object before the first access' % (who, tally.n)]
+    for i in range(n + 2):
+        try:
+            got = ('item', seq[i])
+        except IndexError:
+            got = ('IndexError',)
+        except Exception as e:  # noqa
+            got = ('raised', type(e).__name__ + ': ' + str(e)[:60])
+        if i >= n:
+            if got != ('IndexError',):
+                return ['%s: seq[%d] past the end: %s instead of IndexError' % (who, i, repr(got)[:60])]
+        elif got[0] != 'item' or not (got[1] is want[i] if ident else
+                                      type(got[1]) is type(want[i]) and got[1] == want[i]):
+            return ['%s: seq[%d] is %s, element %d of the object is %s' % (
+                who, i, repr(got)[:60], i, repr(want[i])[:40])]
+        if tally is not None and tally.n != min(i + 1, n):
+            return ['%s: after seq[%d] %d elements are taken from the object, needed are %d' % (
+                who, i, tally.n, min(i + 1, n))]
+    return []
+
+
+# ----------------------------------------------------------------------------
 # several loops in one rendering
 
 def battr_text(p):
@@ -1076,7 +1311,12 @@ def run(res, tier, have_driver):
                 'subclass / generator return, against a plain reference (value identity, IndexError, exact pull '
                 'count).  Several loops in one rendering: two batched loops in a row, nested over a fresh lazy '
                 'sequence per outer element, nested over the same sequence (bound = the larger one); per-loop '
-                'pull counts compared with the model')
+                'pull counts compared with the model.  As it is or wrapped: the real sequence_ensure_subscription on '
+                'one object of every kind of Batch.SeqKind and of 21 further kinds (subclasses of list / tuple / str / '
+                'dict, namedtuple, range, deque, bytes, bytearray, Sequence / Mapping classes, objects with keys only / '
+                'get only, frozenset, dict views, map, list iterator, reversed) with 0, 1, 3, 6 elements against a '
+                'table written in the harness: list-like = the same object back, otherwise a wrapper that has taken '
+                'nothing yet, gives the elements in order, one more per seq[i], IndexError past the end')
     cases = []
     for L, p in param_space('quick' if tier == 'quick' else 'thorough', r):
         if tier == 'thorough' and r.random() > 0.25:
@@ -1145,6 +1385,17 @@ def run(res, tier, have_driver):
             res.nt(('wrapper', json.dumps(w, sort_keys=True)))
         for f in run_wrapper(w):
             res.oracle_fail.append({'case': w, 'what': f})
+    # as it is or wrapped: one object of every kind and size (deterministic, both tiers)
+    for kind, as_is in ENSURE_TABLE:
+        for n in ENSURE_SIZES:
+            ec = {'family': 'ensure', 'kind': kind, 'n': n}
+            res.evaluations += 1
+            res.count('ensure_kind')
+            res.count('ensure:' + ('as_is' if as_is else 'wrapped'))
+            if n:
+                res.nt(('ensure', kind, n))
+            for f in run_ensure(ec):
+                res.oracle_fail.append({'case': ec, 'what': f})
     rm = common.rng('C12-multi')
     multi = []
     for _ in range(900 if tier == 'quick' else 12000):
@@ -1248,6 +1499,10 @@ def replay(path):
     c = d['first']['case']
     if c.get('family') == 'wrapper':
         bad = run_wrapper(c)
+        print(bad)
+        return 1 if bad else 0
+    if c.get('family') == 'ensure':
+        bad = run_ensure(c)
         print(bad)
         return 1 if bad else 0
     if c.get('family') == 'multi':
